@@ -129,9 +129,9 @@ def ob_override(k, thr_kind, timeout):
               canaries=[{"target": "praatio.utilities.textgrid_io:_fillInBlanks", "find": "if float(newEntries[-1][1]) > float(maxTime):", "replace": "if float(newEntries[-1][0]) > float(maxTime):"}] if (k == 2 and thr_kind == "none") else [])
 
 
-def ob_spans(k, timeout):
+def ob_spans(k, timeout, blanks=False):
     """a tier whose own span is narrower than the textgrid's keeps that span on save
-    (blank filling off, no overrides)"""
+    (no overrides; with blank filling the entries are padded, the tier header is not touched)"""
     names = ["hi", "tlo", "thi"] + _ts(k)
 
     def pre(hi, tlo, thi, *ts):
@@ -140,7 +140,7 @@ def ob_spans(k, timeout):
     def body(hi, tlo, thi, *ts):
         ents = [(ts[2 * i], ts[2 * i + 1], LABELS[i]) for i in range(k)]
         d = _mkdict(0.0, hi, ents, tspan=(tlo, thi))
-        out = textgrid_io._prepTgForSaving(d, False, None, None, MIN)
+        out = textgrid_io._prepTgForSaving(d, blanks, None, None, MIN)
         if (out["xmin"], out["xmax"]) != (0.0, hi):
             return "file span changed"
         t = out["tiers"][0]
@@ -148,11 +148,11 @@ def ob_spans(k, timeout):
             return "tier span not written as it is in memory"
         if (out["tiers"][1]["xmin"], out["tiers"][1]["xmax"]) != (0.0, hi):
             return "point tier span"
-        if [tuple(e) for e in t["entries"]] != ents:
+        if not blanks and [tuple(e) for e in t["entries"]] != ents:
             return "entries"
         return True
 
-    return Ob("tier-span-kept-k%d" % k, F(*names), body, pre, fmode="real", timeout=timeout, funcs=FUNCS[:1], bounds="k=%d intervals in a tier spanning [tlo,thi] inside the textgrid span [0,hi]" % k)
+    return Ob("tier-span-kept-k%d%s" % (k, "-blanks" if blanks else ""), F(*names), body, pre, fmode="real", timeout=timeout, funcs=FUNCS[:1], bounds="k=%d intervals in a tier spanning [tlo,thi] inside the textgrid span [0,hi]; blank filling %s" % (k, "on" if blanks else "off"))
 
 
 def ob_noblanks(k, timeout):
@@ -175,8 +175,63 @@ def ob_noblanks(k, timeout):
     return Ob("noblanks-k%d" % k, F(*names), body, pre, fmode="real", timeout=timeout, funcs=FUNCS[:1] + FUNCS[3:], bounds="k=%d intervals, blank filling off" % k)
 
 
+def ob_rejected_save_concrete():
+    """concrete cross-check through the file system (outside the solver's reach): a save that
+    is rejected because an override cuts into the data raises and writes nothing - a fresh path
+    does not come into existence, an earlier good file at the same path is left as it was"""
+    import os
+    import shutil
+    import tempfile
+
+    from praatio.data_classes.interval_tier import IntervalTier
+    from praatio.data_classes.textgrid import Textgrid
+
+    FMTS = ["short_textgrid", "long_textgrid", "json", "textgrid_json"]
+    CUTS = [{"minTimestamp": 1.5}, {"maxTimestamp": 2.5}, {"minTimestamp": 1.5, "maxTimestamp": 2.5}]
+
+    def check(f, c):
+        tg = Textgrid(0.0, 4.0)
+        tg.addTier(IntervalTier("i", [Interval(1.0, 2.0, "a"), Interval(2.0, 3.0, "b")], 0.0, 4.0))
+        d = tempfile.mkdtemp(prefix="verif_c04_")
+        try:
+            fresh = os.path.join(d, "fresh.TextGrid")
+            good = os.path.join(d, "good.TextGrid")
+            tg.save(good, FMTS[f], True, reportingMode="silence")
+            before = open(good, "rb").read()
+            for fn in (fresh, good):
+                try:
+                    tg.save(fn, FMTS[f], True, reportingMode="silence", **CUTS[c])
+                except errors.PraatioException:
+                    pass
+                else:
+                    return "an override that cuts into the data was accepted"
+            if os.path.exists(fresh):
+                return "the rejected save left a file behind (%d bytes)" % os.path.getsize(fresh)
+            if open(good, "rb").read() != before:
+                return "the rejected save destroyed the file that was there"
+            return True
+        finally:
+            shutil.rmtree(d, ignore_errors=True)
+
+    def run():
+        n = 0
+        for f in range(len(FMTS)):
+            for c in range(len(CUTS)):
+                n += 1
+                try:
+                    r = check(f, c)
+                except Exception as ex:  # noqa
+                    r = "exception " + type(ex).__name__ + ": " + str(ex)[:100]
+                if r is not True:
+                    return {"verdict": "REFUTED", "queries": n, "cex_args": {"f": f, "c": c}, "message": str(r), "refute_kind": "CONCRETE"}
+        return {"verdict": "CONFIRMED", "queries": n, "detail": "concrete cross-check"}
+
+    return Ob("rejected-save-writes-nothing-concrete", I("f", "c"), check, kind="smt", smt=run, timeout=120, funcs=["praatio.data_classes.textgrid.Textgrid.save (file system)"], bounds="concrete cross-check: 4 formats x 3 overrides that cut into the data, fresh and existing target path")
+
+
 def obligations(tier):
     obs = []
+    obs.append(ob_rejected_save_concrete())
     if tier == "quick":
         for tk in ("none", "sym"):
             for k in (2, 3):
@@ -187,9 +242,11 @@ def obligations(tier):
         obs.append(ob_override(0, "sym", 30))
         obs.append(ob_noblanks(2, 60))
         obs.append(ob_spans(2, 120))
+        obs.append(ob_spans(1, 200, blanks=True))
     else:
         for k in (0, 1, 2, 3):
             obs.append(ob_spans(k, 600))
+            obs.append(ob_spans(k, 900, blanks=True))
         for tk in ("none", "sym"):
             for k in (0, 1, 2, 3):
                 obs.append(ob_fill(k, tk, 2400))
